@@ -194,7 +194,7 @@ def spec_validation(gen, repo, known_ops=()):
     return done, fails
 
 
-def bounded_fallback(pid, repo, root, seed, lines):
+def bounded_fallback(pid, repo, root, seed, lines, outdir=None):
     """When contracts stopped binding (UNDECIDED), run the bounded witnesses of the property as a search for a
     concrete failing input. Returns True when one was found."""
     tests = {
@@ -214,7 +214,7 @@ def bounded_fallback(pid, repo, root, seed, lines):
         return False
     if not fails:
         return False
-    rp = os.path.join(root, "replays", pid, "bounded-witness.json")
+    rp = os.path.join(outdir or root, "replays", pid, "bounded-witness.json")
     _write(rp, {"property": pid, "obligation": "bounded witness after UNDECIDED obligations", "failing_input": fails[:10], "replay_output": out[-6000:], "replayed": True})
     lines.append("VIOLATION property=%s replay=%s" % (pid, rp))
     return True
